@@ -1,7 +1,7 @@
 """psv.props — which rules decide which property."""
 from . import core
 from .report import Check
-from .rules import cw, ed, mt, ts, vg, pm, ax, kb, dp, sg, uw, sm, fs, tc, ge, nl
+from .rules import cw, ed, mt, ts, vg, pm, ax, kb, dp, sg, uw, sm, fs, tc, ge, nl, sp
 from . import selftest
 
 
@@ -120,8 +120,11 @@ def c13(tier):
               "decide memory safety inside CHOLMOD / the GLAM reshaping for valid arguments.",
               assumptions=["the hazards listed in psv/rules/vg.py FIT_OBLIGATIONS are the uses of the arguments that need a guard (derived by reading glam.c, splineutil.c)"])
     P = core.load(tier=tier, extra_units=selftest.UNITS)
-    selftest.run(P, C, ('ts2','cw1'))
+    selftest.run(P, C, ('ts2','cw1','sp'))
     vg.vg1(P, C)
+    # 'never reads or writes out of bounds', the part visible in the code's shape inside the solver: no stale or released CHOLMOD arrays
+    sp.sp1(P, C, floor=3)
+    sp.sp2(P, C)
     ts.ts2(P, C, only=("fit",), rule_floor=2)
     ts.ts3(P, C, only=("fit",))
     cw.cw1(P, C, only=("splinetable_glamfit",))
@@ -280,8 +283,12 @@ def c10(tier):
                            "IEEE float addition is monotone; the copy double->float rounds monotonically",
                            "NaN data are out of scope (a NaN trial value is not clamped)"])
     P = core.load(tier=tier, extra_units=selftest.UNITS)
+    selftest.run(P, C, ('sp',))
     sg.run_mono(P, C)
     sg.run_sign(P, C)
+    # "for any data": the solver's factor bookkeeping must not read moved or released CHOLMOD arrays on any path
+    sp.sp1(P, C, floor=3)
+    sp.sp2(P, C)
     C.extra["units"] = sorted(P.units.keys())
     return C.finish()
 
@@ -289,11 +296,16 @@ def c10(tier):
 def c11(tier):
     C = Check("C11", tier,
               explanation="Only the clause 'component-wise non-negative exactly, for the solver used by fitting' is decided, by sign provenance of "
-              "every store into nnls_normal_block3's result (SG-2). KKT optimality, agreement with the unique minimiser, termination of the inner "
+              "every store into nnls_normal_block3's result (SG-2), plus a memory-safety clause of the factor-update path it is anchored in: cached CHOLMOD "
+              "array pointers are not read after a call that may move them (SP-1) and no field is read through a released object (SP-2). KKT optimality, agreement with the unique minimiser, termination of the inner "
               "loop and everything about the three other exported solvers are numerical and are NOT decided.",
               assumptions=["NaN data are out of scope"])
     P = core.load(tier=tier, extra_units=selftest.UNITS)
+    selftest.run(P, C, ('sp',))
     sg.run_sign(P, C)
+    # anchored in modify_factor / recompute_factor: the factor-update path must not read moved or released CHOLMOD arrays
+    sp.sp1(P, C, floor=3)
+    sp.sp2(P, C)
     C.extra["units"] = sorted(P.units.keys())
     C.extra["not_decided"] = ["KKT conditions", "termination", "nnls_lawson_hanson", "nnls_normal_block", "nnls_normal_block_updown"]
     return C.finish()
